@@ -1422,6 +1422,14 @@ def run(ctx):
     from qv import c02_planary
     before = ctx.evaluations
     c02_planary.cases(ctx)
+    from qv import c02_stepgrid
+    sg = c02_stepgrid.cases(ctx)
+    ctx.explored['cmwpm_stepgrid_tie'] = {
+        'evaluations': int(sg['grids'] + sg['distances']), 'exhaustive': False,
+        'rule': 'StepGrid.set_background (all four box shapes, real / virtual / both-virtual matched pairs, set or list) and '
+                'StepGrid.distance (algorithms 1, 2, 4) of PlanarCMWPMDecoder on random planar sizes: every grid cell and '
+                'every distance compared exactly (fractions) with Model/StepGrid.lean (theorems: Props/C02/StepGrid.lean); '
+                'grids={grids} distances={distances}'.format(**sg)}
     ctx.explored['planary_model_tie'] = {
         'evaluations': ctx.evaluations - before, 'exhaustive': False,
         'rule': 'PlanarYDecoder: snake fills, partial recoveries, destabilisers, the whole residual look-up table, y-stabilizers, '
